@@ -54,7 +54,7 @@ reg("C01",
     technique="recorded send/receive histories with unique message contents checked against the sender's ledger (exactly-once, order, bytes) under shim-injected short reads/writes and EAGAIN; ASan+UBSan",
     level_text="Real connections on ux, uxf, tcp, tls and utls (UX leg, TLS leg, fallback) in non-blocking, blocking and mixed mode are driven with random interleavings of send/receive/finish/await while a link-time shim below XCM and below OpenSSL fragments and refuses reads and writes; every message has unique content and an offline oracle compares the receiver's history with the sender's ledger of accepted sends (prefix always, equality after a graceful or quiescent end).",
     level_note="Held on the executions produced; kernel scheduling is not controlled. Floors require header splits, frame splits and mid-frame refusals to have been observed.",
-    harness=ENGINE + ["traffic.c"], exe="h_traffic",
+    harness=ENGINE + ["vctl.c", "traffic.c"], exe="h_traffic",
     stages=[dict(variant="asan", cases={"quick": 720, "thorough": 115200}, timeout={"quick": 900, "thorough": 3400})],
     floors={"quick": {"header_splits": 200, "frame_splits": 500, "refused_mid_frame": 100, "complete_directions": 300,
                       "cases_with_truncating_receive": 50, "distinct_nontrivial": 60},
@@ -70,7 +70,7 @@ reg("C02",
     technique="recorded byte-stream histories (content keyed by send call) checked as prefix/equality against the accepted ranges under shim-injected short I/O and EAGAIN below XCM and OpenSSL; ASan+UBSan",
     level_text="btcp and btls connections in non-blocking, blocking and mixed mode; every xcm_send call carries bytes generated from its own call number, so bytes of a refused call are distinguishable from whatever is offered next (same, longer, shorter or different data); the receiver's concatenated stream is compared with the concatenation of the accepted prefixes (prefix at all times, equality after flush+graceful close or quiescence); return-value contract and capacity bound checked on exact-size heap buffers.",
     level_note="Held on the executions produced. Refusals below OpenSSL after a record was sealed are produced by the shim, not by a real full socket buffer.",
-    harness=ENGINE + ["traffic.c"], exe="h_traffic",
+    harness=ENGINE + ["vctl.c", "traffic.c"], exe="h_traffic",
     stages=[dict(variant="asan", cases={"quick": 480, "thorough": 96000}, timeout={"quick": 900, "thorough": 3400})],
     floors={"quick": {"injected_eagain": 2000, "partial_acceptance": 200, "retries_with_different_data": 300, "retries_with_same_data": 100,
                       "complete_directions": 200, "distinct_nontrivial": 40},
@@ -84,7 +84,7 @@ reg("C03",
     technique="send-outcome monitor: counter snapshots around every failing xcm_send, ledger of failed/accepted attempts vs. deliveries, EINTR injected at every blocking wait (shim) and by real signals; ASan+UBSan",
     level_text="Every xcm_send outcome on every transport and mode is recorded; sends that fail with EAGAIN/EMSGSIZE/EINVAL/EINTR must leave all counters except to_lower unchanged, must never be delivered, and the application model re-sends them (same or different data) so that a hidden acceptance shows up as a duplicate. Sizes 0, max+1, 1 MiB and 2^31+5 are mixed in. EINTR is injected at the n-th blocking poll of a back-pressured blocking sender (n swept over cases) and by real SIGUSR1.",
     level_note="Held on the executions produced; fault_enumeration over the index of the interrupted wait is sampled per case, not exhaustive.",
-    harness=ENGINE + ["traffic.c"], exe="h_traffic",
+    harness=ENGINE + ["vctl.c", "traffic.c"], exe="h_traffic",
     stages=[dict(variant="asan", cases={"quick": 660, "thorough": 39600}, timeout={"quick": 900, "thorough": 3400})],
     floors={"quick": {"refusal_counter_snapshots": 3000, "send_oversized": 500, "send_zero_len": 200, "eintr_injected": 30,
                       "send_refused_eagain": 3000, "complete_directions": 250, "distinct_nontrivial": 60},
@@ -98,7 +98,7 @@ reg("C17",
     technique="counter monitor: all xcm.*_msgs/_bytes attributes read after every engine step on both ends and compared with the harness ledgers (monotone, app-side equality, ordering, quiescent agreement); ASan+UBSan",
     level_text="After every step of a non-blocking history (partial flushes, truncating receives, refused/oversized/zero sends, closes) the 8 (4 on byte streams) counters of both ends are read through xcm_attr_get_int64 and compared with what the application really sent and received; at quiescence sender.to_lower, receiver.from_lower and the ledger must agree, on every transport.",
     level_note="Counters are only read from the scheduler thread (non-blocking cases) and at the end of threaded cases.",
-    harness=ENGINE + ["traffic.c"], exe="h_traffic",
+    harness=ENGINE + ["vctl.c", "traffic.c"], exe="h_traffic",
     stages=[dict(variant="asan", cases={"quick": 660, "thorough": 13200}, timeout={"quick": 900, "thorough": 3400})],
     floors={"quick": {"counter_reads": 50000, "quiescent_counter_checks": 100, "cases_with_truncating_receive": 40, "distinct_nontrivial": 60, "connections_beyond_2G": 1},
             "thorough": {"counter_reads": 1000000, "quiescent_counter_checks": 2000, "distinct_nontrivial": 150, "connections_beyond_2G": 2}},
